@@ -58,6 +58,14 @@ impl YaccFirsts {
         &&& forall|r: int| 0 <= r < g.nrules() ==> #[trigger] self.F()[r] == self.firsts@[r]@
     }
 
+    pub fn firsts(&self, ridx: RIdx<$T>) -> (r: &Vob)
+        requires (ridx.0 as nat) < self.firsts@.len(),
+        ensures r@ == self.firsts@[ridx.0 as int]@, // OBL: C17.firsts.firsts_hands_out_the_row_of_that_rule
+    {
+        //@probe
+        //@body file=cfgrammar/src/lib/yacc/firsts.rs fn=firsts
+        //@endbody
+    }
     pub fn is_set(&self, ridx: RIdx<$T>, tidx: TIdx<$T>) -> (r: bool)
         requires (ridx.0 as nat) < self.firsts@.len(), (tidx.0 as nat) < self.firsts@[ridx.0 as int]@.len(),
         ensures r == self.F()[ridx.0 as int][tidx.0 as int], // OBL: C17.firsts.is_set_reads_the_bit
